@@ -97,6 +97,7 @@ type cfResp struct {
 	Bcont string            `json:"bcont"`
 	Bend  string            `json:"bend"`
 	Items cfNum             `json:"items"`
+	Ecode string            `json:"ecode"`         // the OCI error code an "errjson" body carries ("" = NAME_UNKNOWN)
 	MvT   int64             `json:"mvt,omitempty"` // (in logged responses) mv was "huge": T, K of the scenario's number
 	MvK   int64             `json:"mvk,omitempty"`
 	Raw   map[string]string `json:"raw,omitempty"` // hex-encoded concrete values overriding the rendering of a class
@@ -470,7 +471,12 @@ func cfRender(r *cfResp, k int, call string) (http.Header, int64, *cfBody, int64
 		case "garbage":
 			body.data = []byte("\x00\xff\xfe<html>not json</html>")
 		case "errjson":
-			body.data = []byte(`{"errors":[{"code":"NAME_UNKNOWN","message":"scripted"}]}`)
+			code := r.Ecode
+			if code == "" {
+				code = "NAME_UNKNOWN"
+			}
+			cj, _ := json.Marshal(code)
+			body.data = []byte(`{"errors":[{"code":` + string(cj) + `,"message":"scripted","detail":{"k":` + strconv.Itoa(k) + `}}]}`)
 		case "wsjson":
 			body.data = []byte(`{"errors":[]}`)
 		case "wsarr":
@@ -714,7 +720,7 @@ func (c *cfCounting) Close() error { return c.rc.Close() }
 func cfLogResp(r *cfResp, cl, blen int64, bcont string, items int64, mv int64) ev {
 	e := ev{"code": r.Code, "loc": r.Loc, "rf": r.Rf, "ra": cfClampN(r.Ra), "rb": cfClampN(r.Rb), "cl": cfClampN(cl), "dig": r.Dig,
 		"halg": r.Halg, "hcont": r.Hcont, "link": r.Link, "ctype": r.Ctype, "mf": r.Mf, "mv": cfClampN(mv), "crf": r.Crf,
-		"crtot": cfClampN(r.Crtot), "body": r.Body, "blen": blen, "bcont": bcont, "bend": r.Bend, "items": items}
+		"crtot": cfClampN(r.Crtot), "body": r.Body, "blen": blen, "bcont": bcont, "bend": r.Bend, "items": items, "ecode": r.Ecode}
 	if r.Bend == "" {
 		e["bend"] = "eof"
 	}
@@ -954,7 +960,9 @@ func (rn *cfRunner) run(id int, s *cfScenario) {
 		switch {
 		case timedOut:
 			rn.hangs++
-			rn.enc.Encode(ev{"op": "timeout", "name": c.Name, "requests": len(exch), "msg": fmt.Sprintf("no return within %v after %d requests", rn.timeout, len(exch))})
+			// the scripted transport never blocks: a call that has not returned by now hangs.  Its goroutine is
+			// left behind; the next scenario gets a fresh client.
+			rn.enc.Encode(ev{"op": "hang", "name": c.Name, "requests": len(exch), "msg": fmt.Sprintf("no return within %v after %d requests", rn.timeout, len(exch))})
 			return
 		case o.panicMsg != "":
 			rn.panics++
@@ -1015,6 +1023,16 @@ func cfAlnum(rnd *rand.Rand) string {
 }
 
 func cfPick(rnd *rand.Rand, xs ...string) string { return xs[rnd.Intn(len(xs))] }
+
+// cfErrCodes: every standard OCI error code (taken from the package under test), and some that are none.
+var cfErrCodes = []string{
+	ociregistry.ErrBlobUnknown.Code(), ociregistry.ErrBlobUploadInvalid.Code(), ociregistry.ErrBlobUploadUnknown.Code(),
+	ociregistry.ErrDigestInvalid.Code(), ociregistry.ErrManifestBlobUnknown.Code(), ociregistry.ErrManifestInvalid.Code(),
+	ociregistry.ErrManifestUnknown.Code(), ociregistry.ErrNameInvalid.Code(), ociregistry.ErrNameUnknown.Code(),
+	ociregistry.ErrSizeInvalid.Code(), ociregistry.ErrUnauthorized.Code(), ociregistry.ErrDenied.Code(),
+	ociregistry.ErrUnsupported.Code(), ociregistry.ErrTooManyRequests.Code(), ociregistry.ErrRangeInvalid.Code(),
+	"UNKNOWN", "NOT_A_CODE", "blob_upload_unknown", "",
+}
 
 func cfRandResp(rnd *rand.Rand, call string) cfResp {
 	r := cfResp{Loc: "none", Rf: "none", Dig: "none", Link: "none", Ctype: "none", Mf: "none", Crf: "none", Body: "empty", Bcont: "e", Bend: "eof", Raw: map[string]string{}}
@@ -1121,6 +1139,8 @@ func cfRandResp(rnd *rand.Rand, call string) cfResp {
 		}
 	case "list":
 		r.Items = cfNum{K: []int64{0, 1, 2, 3, 4, 999, 1000, 1001, 2000}[rnd.Intn(9)]}
+	case "errjson":
+		r.Ecode = cfErrCodes[rnd.Intn(len(cfErrCodes))]
 	case "rand":
 		raw("body", cfRandBytes(rnd, rnd.Intn(6)))
 	}
@@ -1174,7 +1194,11 @@ func cfNearFine(rnd *rand.Rand, call string) cfResp {
 			}
 		}
 	}
-	switch rnd.Intn(12) {
+	switch rnd.Intn(14) {
+	case 10, 11:
+		// a well-formed OCI error, of any code, under a status that matches the code or does not
+		r.Code = []int{400, 401, 403, 404, 404, 405, 416, 429, 500, 503}[rnd.Intn(10)]
+		r.Ctype, r.Body, r.Ecode = cfPick(rnd, "json", "json", "jsonp"), "errjson", cfErrCodes[rnd.Intn(len(cfErrCodes))]
 	case 0:
 		r.Code = x.Code
 	case 1:
@@ -1314,7 +1338,8 @@ func cfCmd(args []string) error {
 	scen := fs.String("scen", "", "file with one scenario per line as exported by TLC from OciClientFaultsMC ({ps, ev})")
 	replay := fs.String("replay", "", "trace or replay file: re-execute its scenarios (calls and responses are read back from the events)")
 	only := fs.String("only", "", "comma-separated top-level call names to keep (others are skipped)")
-	timeout := fs.Duration("timeout", 20*time.Second, "watchdog per call")
+	timeout := fs.Duration("timeout", 15*time.Second, "watchdog per call (the transport never blocks; correct calls take milliseconds)")
+	maxHangs := fs.Int("maxhangs", 4, "stop after this many hung calls (each costs a watchdog period)")
 	out := fs.String("out", "", "trace file")
 	fs.Parse(args)
 	f, err := os.Create(*out)
@@ -1404,7 +1429,7 @@ func cfCmd(args []string) error {
 					}
 					cur.script = append(cur.script, *e.R)
 				}
-			case "panic", "timeout":
+			case "panic", "hang", "timeout":
 				// the event of a call that did not return: its call line precedes it
 			}
 			return nil
@@ -1425,13 +1450,13 @@ func cfCmd(args []string) error {
 		}
 		rn.run(i+1, s)
 		ran++
-		if rn.hangs >= 5 {
+		if rn.hangs >= *maxHangs {
 			// every hang costs a watchdog period and leaves a goroutine behind: what is recorded is enough for a verdict
 			break
 		}
 	}
 	bw.Flush()
-	res, _ := json.Marshal(ev{"scenarios": ran, "calls": rn.calls, "requests": rn.reqs, "panics": rn.panics, "timeouts": rn.hangs})
+	res, _ := json.Marshal(ev{"scenarios": ran, "calls": rn.calls, "requests": rn.reqs, "panics": rn.panics, "hangs": rn.hangs, "stopped": rn.hangs >= *maxHangs})
 	fmt.Println(string(res))
 	return nil
 }
